@@ -28,12 +28,16 @@ FLOOR = {"quick": 150, "thorough": 2500}
 
 EDITS = [evo.e_add_optional_field, evo.e_remove_optional_field, evo.e_add_required_field, evo.e_remove_required_field, evo.e_reorder_fields,
          evo.e_rename_with_alias, evo.e_introduce_alias, evo.e_add_step, evo.e_make_optional, evo.e_make_required, evo.e_add_unused_alias]
-WIDEN = {"int8": ["int16", "int32", "int64", "float64"], "uint8": ["uint16", "int32", "uint64"], "int16": ["int32", "int64"], "uint16": ["uint32", "int64"],
-         "int32": ["int64", "float64"], "uint32": ["uint64", "int64"], "float32": ["float64"], "int64": ["int32"], "float64": ["float32"], "uint64": ["uint32"]}
+WIDEN = {"int8": ["int16", "int32", "int64", "float64", "uint8"], "uint8": ["uint16", "int32", "uint64", "int8"], "int16": ["int32", "int64", "uint16"], "uint16": ["uint32", "int64", "int16"],
+         "int32": ["int64", "float64", "uint32"], "uint32": ["uint64", "int64", "int32"], "float32": ["float64"], "int64": ["int32", "uint64"], "float64": ["float32"], "uint64": ["uint32", "int64"]}
 
 
 class OutOfRange(Exception):
     pass
+
+
+class IntOverflow(OutOfRange):
+    """an integer that does not fit the integer type of the other version: the documentation names numeric overflow as a runtime error"""
 
 
 def e_number_widen(pkg, r):
@@ -125,7 +129,7 @@ def conv_num(v, old, new):
                 raise OutOfRange()       # tie: rounding mode not pinned down
         lo, hi = INT_RANGE[new]
         if not (lo <= x <= hi):
-            raise OutOfRange()
+            raise (IntOverflow() if ival else OutOfRange())
         return x
     fv = float(v) if ival else v.value
     if not ival and new == "float32" and old == "float64" and (fv != fv or fv in (float("inf"), float("-inf"))):
@@ -268,6 +272,21 @@ def run(ctx):
                 try:
                     want = conv_protocol(co, po, cn, pn, vals)
                     evaluable = True
+                except IntOverflow:
+                    evaluable = False
+                    ctx.count("valueset.int-overflow")
+                    # documented: numeric overflow is a runtime error - never a silently different value
+                    data = co.encode_stream(po, sch_old, vals)
+                    pr = cxx.run_driver(exe_new, ["Evo", "bin", "bin"], data, "plain")
+                    ctx.ev()
+                    ctx.case((key, i, "read-overflow", k))
+                    if pr.sig is not None:
+                        ctx.violation("crash:read-old-overflow", "chain %s (%s): v%d stream with an integer that overflows the new type: driver died with signal %s" % (key, edits, i, pr.sig), {"case_dir": base, "stderr": pr.stderr[-500:]})
+                        bad = True
+                    elif pr.rc == 0:
+                        ctx.violation("silent-overflow:read-old", "chain %s (%s): v%d stream with an integer that does not fit the new integer type was converted silently instead of raising the documented numeric-overflow error" % (key, edits, i),
+                                      {"case_dir": base, "values": repr(vals)[:1500]})
+                        bad = True
                 except OutOfRange:
                     evaluable = False
                     ctx.count("valueset.out-of-range")
